@@ -35,6 +35,7 @@ type propStats struct {
 	Excluded    int64                  `json:"excluded_known"`
 	Slow        int64                  `json:"slow_waits"`
 	hashes      map[uint64]struct{}
+	buckets     map[string][]sampleRec
 }
 
 var (
@@ -42,7 +43,6 @@ var (
 	statProps = map[string]*propStats{}
 )
 
-const maxSamples = 6
 
 func statFor(prop string) *propStats {
 	p := statProps[prop]
@@ -77,10 +77,49 @@ func statCase(prop string, hash uint64, nontrivial bool, sample func() interface
 		return
 	}
 	p.hashes[hash] = struct{}{}
-	if sample != nil && len(p.Samples) < maxSamples {
-		p.Samples = append(p.Samples, sample())
+	if sample == nil {
+		return
+	}
+	// keep, per mode (the case's first label), the samplesPerBucket distinct
+	// non-trivial cases with the smallest hashes: spread over the run rather
+	// than "the first few", and the same whichever shard saw them first
+	hash = mix64(hash) // FNV of near-identical strings differs in few high bits: mix before ordering
+	bucket := ""
+	if len(labels) > 0 {
+		bucket = labels[0]
+	}
+	if p.buckets == nil {
+		p.buckets = map[string][]sampleRec{}
+	}
+	b := p.buckets[bucket]
+	if len(b) < samplesPerBucket {
+		if len(b) == 0 && len(p.buckets) >= maxBuckets {
+			return
+		}
+		p.buckets[bucket] = append(b, sampleRec{Hash: hash, Bucket: bucket, Case: sample()})
+		return
+	}
+	worst := 0
+	for i := range b {
+		if b[i].Hash > b[worst].Hash {
+			worst = i
+		}
+	}
+	if hash < b[worst].Hash {
+		b[worst] = sampleRec{Hash: hash, Bucket: bucket, Case: sample()}
 	}
 }
+
+type sampleRec struct {
+	Hash   uint64      `json:"hash"`
+	Bucket string      `json:"bucket"`
+	Case   interface{} `json:"case"`
+}
+
+const (
+	samplesPerBucket = 2
+	maxBuckets       = 12
+)
 
 func statLabel(prop string, label string, n int64) {
 	statMu.Lock()
@@ -137,6 +176,12 @@ func flushStats() {
 	pid := os.Getpid()
 	for name, p := range statProps {
 		base := filepath.Join(dir, fmt.Sprintf("%s.%d", name, pid))
+		p.Samples = p.Samples[:0]
+		for _, b := range p.buckets {
+			for _, r := range b {
+				p.Samples = append(p.Samples, r)
+			}
+		}
 		js, err := json.Marshal(p)
 		if err == nil {
 			_ = os.WriteFile(base+".json", js, 0o644)
@@ -190,4 +235,11 @@ func TestMain(m *testing.M) {
 	code := m.Run()
 	flushStats()
 	os.Exit(code)
+}
+
+func mix64(x uint64) uint64 {
+	x += 0x9e3779b97f4a7c15
+	x = (x ^ (x >> 30)) * 0xbf58476d1ce4e5b9
+	x = (x ^ (x >> 27)) * 0x94d049bb133111eb
+	return x ^ (x >> 31)
 }
